@@ -46,6 +46,7 @@ import (
 	"github.com/AliyunContainerService/terway/pkg/eni"
 	"github.com/AliyunContainerService/terway/pkg/k8s"
 	"github.com/AliyunContainerService/terway/pkg/storage"
+	"github.com/AliyunContainerService/terway/pkg/utils"
 	"github.com/AliyunContainerService/terway/rpc"
 	"github.com/AliyunContainerService/terway/types"
 	"github.com/AliyunContainerService/terway/types/daemon"
@@ -778,6 +779,8 @@ func (s *dStore) Delete(key string) error {
 func (s *dStore) Get(key string) (interface{}, error) { return s.real.Get(key) }
 func (s *dStore) List() ([]interface{}, error)        { return s.real.List() }
 
+func dRealDBPath() string { return utils.NormalizePath(resDBPath) }
+
 func dOpenDB(path string) (storage.Storage, error) {
 	// the same serializer pair as NetworkServiceBuilder.InitResourceDB (which is bound to a constant path)
 	return storage.NewDiskStorage(resDBName, path, json.Marshal, func(b []byte) (interface{}, error) {
@@ -830,6 +833,7 @@ type dConf struct {
 	probe              bool
 	realk8s            bool // the API server is asked through the real pkg/k8s code
 	v6                 bool // dual stack: every pod gets an IPv4 and an IPv6 address
+	realdb             bool // the database is opened by the REAL NetworkServiceBuilder.InitResourceDB at its constant path
 }
 
 type dSys struct {
@@ -861,9 +865,24 @@ func dNextFile(dir, tag string) string {
 func dStart(t *testing.T, conf dConf, x *dWorld, cloud *dCloud, kk *dK8s, dir, dbPath string) (*dSys, error) {
 	s := &dSys{t: t, conf: conf, x: x, cloud: cloud, k8s: kk, dir: dir, dbPath: dbPath}
 	cloud.x, kk.x = x, x
-	real, err := dOpenDB(dbPath)
-	if err != nil {
-		return nil, err
+	var real storage.Storage
+	var err error
+	if conf.realdb {
+		// the product's own way to the database: its serializer pair, its constant path (which lies in the tmpfs this
+		// process mounted over /var/lib in its private mount namespace)
+		if dbPath != dRealDBPath() {
+			return nil, fmt.Errorf("verif: real database mode needs the product's path")
+		}
+		b := NewNetworkServiceBuilder(context.Background()).WithDaemonMode(daemon.ModeENIMultiIP).InitService().InitResourceDB()
+		if b.err != nil {
+			return nil, b.err
+		}
+		real = b.service.resourceDB
+	} else {
+		real, err = dOpenDB(dbPath)
+		if err != nil {
+			return nil, err
+		}
 	}
 	s.store = &dStore{x: x, real: real, gatePut: map[int]chan struct{}{}, gateDel: map[int]chan struct{}{}, atGate: make(chan int, 256)}
 	objList, err := real.List()
@@ -1162,7 +1181,9 @@ func (d *dDriver) probeLocked(s *dSys, point string) {
 		s.t.Fatalf("probe copy: %v", err)
 	}
 	px := &dWorld{crashCh: make(chan struct{})}
-	ps, err := dStart(s.t, s.conf, px, s.cloud.clone(px), s.k8s.clone(px), s.dir, cp)
+	pconf := s.conf
+	pconf.realdb = false // the running daemon holds the lock of the file at the product's path: the probe reads a copy
+	ps, err := dStart(s.t, pconf, px, s.cloud.clone(px), s.k8s.clone(px), s.dir, cp)
 	if err != nil {
 		s.t.Fatalf("probe start at %s: %v", point, err)
 	}
@@ -1608,9 +1629,15 @@ func (d *dDriver) restart() {
 	d.arm.n = 0
 	// no write of the old incarnation can be in progress: writers hold the world lock, a frozen one released it
 	old.x.mu.Lock()
-	np := dNextFile(d.root, "res")
-	if err := dCopyFile(old.dbPath, np); err != nil {
-		d.t.Fatalf("copy db: %v", err)
+	np := old.dbPath
+	if old.conf.realdb {
+		// the killed process lost its file lock; the new one opens the very same file at the product's path
+		_ = storage.VerifDaemonClose(old.store.real)
+	} else {
+		np = dNextFile(d.root, "res")
+		if err := dCopyFile(old.dbPath, np); err != nil {
+			d.t.Fatalf("copy db: %v", err)
+		}
 	}
 	old.x.mu.Unlock()
 	nx := &dWorld{w: d.w, crashCh: make(chan struct{})}
@@ -1768,7 +1795,7 @@ func (d *dDriver) finish() {
 
 func dConfOf(m vt.M) dConf {
 	c := dConf{n1: vt.Int(m["n1"]), n2: vt.Int(m["n2"]), slots: vt.Int(m["slots"]), cap: vt.Int(m["cap"]),
-		policy: vt.Str(m["policy"]), fam: vt.Str(m["fam"]), probe: vt.Bool(m["probe"]), realk8s: vt.Bool(m["realk8s"]), v6: vt.Bool(m["v6"])}
+		policy: vt.Str(m["policy"]), fam: vt.Str(m["fam"]), probe: vt.Bool(m["probe"]), realk8s: vt.Bool(m["realk8s"]), v6: vt.Bool(m["v6"]), realdb: vt.Bool(m["realdb"])}
 	if c.policy == "" {
 		c.policy = "most_ips"
 	}
@@ -1829,6 +1856,7 @@ func dRandomScenarios(fam string, n int) [][]vt.M {
 		cf["fam"] = fam
 		cf["probe"] = fam == "c05"
 		cf["v6"] = (fam == "c05" && i%3 == 1) || (fam == "c04" && i%5 == 4)
+		cf["realdb"] = fam == "c05" && i%4 == 3
 		sc := []vt.M{{"a": "conf", "conf": cf}}
 		np := 3
 		for p := 1; p <= np; p++ {
@@ -1837,6 +1865,13 @@ func dRandomScenarios(fam string, n int) [][]vt.M {
 		switch fam {
 		case "c04":
 			switch i % 6 {
+			case 4:
+				// selection policy least_ips and spare empty interface slots: the manager asks an empty slot before the
+				// interface that holds the pod's address; the repeated (pinned) ADD must come back with the same address
+				sc[0]["conf"] = vt.M{"n1": 2, "n2": 0, "slots": 3, "cap": 2, "policy": "least_ips", "fam": fam, "probe": false}
+				q := 1 + rng.Intn(3)
+				sc = append(sc, dCall("add", q, 1, "none"), dCall("add", q, 2, "none"), dCall("get", q, 2, "none"), dCall("add", q, 2, "none"),
+					dCall("del", q, 2, "none"), dCall("add", 1+q%3, 1, "none"), dCall("add", 1+q%3, 1, "none"), dCall("del", 1+q%3, 1, "none"))
 			case 2:
 				// the pool has to go to the cloud for the second and third pod; the caller gives up while it waits,
 				// later the same pods ask again (the addresses the cloud delivered meanwhile are idle)
@@ -2082,7 +2117,29 @@ func dNetns(t *testing.T) {
 	}
 }
 
+// dMountNS: the harness runs in a private mount namespace with an empty tmpfs over /var/lib, so that the product's
+// constant database path (/var/lib/cni/terway/ResRelation.db) can be used without touching the host. The test binary
+// re-executes itself under unshare -m once.
+func dMountNS(t *testing.T) bool {
+	if os.Getenv("VERIF_MNTNS") != "1" {
+		cmd := exec.Command("unshare", append([]string{"-m", "--", os.Args[0]}, os.Args[1:]...)...)
+		cmd.Env = append(os.Environ(), "VERIF_MNTNS=1")
+		cmd.Stdout, cmd.Stderr = os.Stdout, os.Stderr
+		if err := cmd.Run(); err != nil {
+			t.Fatalf("harness in a private mount namespace: %v", err)
+		}
+		return false
+	}
+	if err := syscall.Mount("tmpfs", "/var/lib", "tmpfs", 0, ""); err != nil {
+		t.Fatalf("tmpfs over /var/lib: %v", err)
+	}
+	return true
+}
+
 func TestVerifDaemon(t *testing.T) {
+	if !dMountNS(t) {
+		return
+	}
 	dNetns(t)
 	logf.SetLogger(logr.Discard())
 	w, err := vt.NewWriter(vt.Env("VERIF_TRACE", ""))
@@ -2131,8 +2188,13 @@ func TestVerifDaemon(t *testing.T) {
 			kk.real, kk.api = dNewRealK8s(t)
 		}
 		w.Emit(vt.M{"ev": "reset", "scen": si, "fam": conf.fam, "cloud": cloud.snapshot(),
-			"conf": vt.M{"n1": conf.n1, "n2": conf.n2, "slots": conf.slots, "cap": conf.cap, "policy": conf.policy, "probe": conf.probe, "realk8s": conf.realk8s, "v6": conf.v6}})
-		s, err := dStart(t, conf, x, cloud, kk, dir, filepath.Join(dir, "ResRelation.db"))
+			"conf": vt.M{"n1": conf.n1, "n2": conf.n2, "slots": conf.slots, "cap": conf.cap, "policy": conf.policy, "probe": conf.probe, "realk8s": conf.realk8s, "v6": conf.v6, "realdb": conf.realdb}})
+		dbPath := filepath.Join(dir, "ResRelation.db")
+		if conf.realdb {
+			dbPath = dRealDBPath()
+			_ = os.Remove(dbPath)
+		}
+		s, err := dStart(t, conf, x, cloud, kk, dir, dbPath)
 		if err != nil {
 			t.Fatalf("start: %v", err)
 		}
